@@ -944,3 +944,15 @@ Proof.
     apply legal_app; [|apply legal_app; [|assumption]]; intros K; cbn in K;
       repeat (destruct K as [K|K]; [discriminate|]); exact K.
 Qed.
+
+Lemma mark_all_failed order now sto :
+  order_ok order (pending_ids sto) = true -> forall r, In r (mark_failed_all order now sto) -> r_st r = Failed.
+Proof.
+  intros O. apply all_failed. intros t. rewrite pendingb_mark_failed_all.
+  destruct (memb t order) eqn:E; cbn; [reflexivity|].
+  destruct (pendingb t sto) eqn:P; [|reflexivity]. apply in_pending_ids in P.
+  apply (order_ok_spec _ _ O) in P. apply memb_In in P. congruence.
+Qed.
+
+Lemma storedb_mark_failed_all t order now s : storedb t (mark_failed_all order now s) = storedb t s.
+Proof. apply storedb_ids, ids_mark_failed_all. Qed.
